@@ -582,6 +582,10 @@ impl<C: Cfg> World<C> {
         if ca == calls.len() {
             state_at_clone = (lo, hi);
         }
+        if out.iter().any(|x| *x == Some(u32::MAX)) {
+            self.fail(MON_MEM | MON_MODEL | MON_ITER, format!("{}:item-outside-initialised", name), format!("{} with calls \"{}\" handed out an item that is not a live element (uninitialised, moved-out or out-of-range slot): {:?}", name, pat, out));
+            return;
+        }
         if out != want {
             self.fail(MON_MODEL | MON_ITER, format!("{}:items", name), format!("{} with calls \"{}\" yielded {:?}, the model gives {:?}", name, pat, out, want));
             return;
